@@ -42,7 +42,7 @@ def fieldCells (fc : FieldCodec) (c : Bool) (fields : List (String × Option Num
 
 theorem serialize_eq (fc : FieldCodec) (tc : TimeCodec) (c : Bool) (p : Point) :
     serialize fc tc c p =
-      tc.iso p.time :: (if p.meas.isEmpty then noneS else p.meas.toList) ::
+      tc.iso p.time :: (if measEmptyAsSentinel && p.meas.isEmpty then noneS else p.meas.toList) ::
         (tagCells c p.tags ++ fieldCells fc c p.fields) := by
   simp only [serialize, tagCells, fieldCells, List.cons_append, List.nil_append]
   rfl
@@ -187,11 +187,13 @@ theorem toDict_tags (tags : List (String × Option String)) (h : (tags.map (·.1
 theorem deserialize_serialize (fc : FieldCodec) (tc : TimeCodec) (hs : SentinelNotNumber fc) (c : Bool)
     (p : Point) (hc : Codable fc tc p) :
     deserialize fc tc (serialize fc tc c p) = some p := by
-  have hm : p.meas.isEmpty = false := by
+  have hm : (measEmptyAsSentinel && p.meas.isEmpty) = false := by
     have := hc.measOk
-    cases h : p.meas.isEmpty
+    cases hg : measEmptyAsSentinel
     · rfl
-    · exact absurd (String.isEmpty_iff.mp h) this
+    · cases h : p.meas.isEmpty
+      · rfl
+      · exact absurd (String.isEmpty_iff.mp h) (this hg)
   rw [serialize_eq, hm]
   simp only [deserialize, Bool.false_eq_true, if_false, hc.timeOk,
     parseTags_tagCells c c p.tags hc.tagVals _ (fieldCells_shape fc c p.fields),
